@@ -136,7 +136,7 @@ def scn_from_counterexample(sid, beh, inv):
             steps.append({"a": "ProcHeld" if nxt in ("FINISHED", "FAILED", "KILLED") else "Proc"})
         elif name in ("Respond", "KillSend"):
             steps.append({"a": "Body", "r": prev["hs"][int(args[0]) - 1]["r"]})
-        elif name in ("WaitRet", "KillBodyBasic", "TransBody", "ReaperStart", "NoopBody", "StartBody", "StopBody", "StopKill", "TransCommit",
+        elif name in ("WaitRet", "KillBodyBasic", "TransBody", "ReaperStart", "NoopBody", "StartBody", "StopBody", "StopPush", "StopKill", "KUnblock", "TransCommit",
                       "LWaitRet"):
             steps.append({"a": "Nop"})
         elif name == "KBody":
